@@ -60,10 +60,33 @@ def wire_port(mido):
     return WirePort('wire')
 
 
+def buffer_port(mido):
+    """(a') a lock-protected device port with a block buffer: _receive reads what the device holds and then marks
+    it consumed (two steps), _send appends a whole message.  It relies on the port lock keeping _send and
+    _receive apart, as every real backend port does."""
+    from mido.ports import BaseIOPort
+
+    class BufferPort(BaseIOPort):
+        def _open(self, **kw):
+            self.buf = []
+
+        def _send(self, msg):
+            data = msg.bytes()
+            self.buf = self.buf + data
+
+        def _receive(self, block=True):
+            data = list(self.buf)
+            self.buf = []
+            self._parser.feed(data)
+    return BufferPort('buffer')
+
+
 def make_port(cx, mido, kind):
     from mido import ports
     if kind == 'wire':
         return wire_port(mido)
+    if kind == 'buffer':
+        return buffer_port(mido)
     if kind == 'echo':
         return ports.EchoPort()
     if kind == 'ioport':
@@ -228,6 +251,57 @@ def relay(cx, max_preempt):
                  'relay-delivers')
 
 
+@harness(labels=['no-call-raises', 'every-call-returns', 'shared-subport:exactly-once-intact', 'received-is-a-copy'])
+def shared_subport(cx, max_preempt, route):
+    """One device port reached along two routes at once: through a MultiPort that holds it, and directly (or
+    through a second MultiPort).  The sub-port's own lock has to serialise the two writers."""
+    import mido
+    from mido import ports
+    with World(cx, max_preempt) as S:
+        wire = wire_port(mido)
+        multi = ports.MultiPort([wire])
+        other = wire if route == 'direct' else ports.MultiPort([wire])
+        a, b = sym_note(cx, mido, 'a_', 0), sym_note(cx, mido, 'b_', 1)
+        snap = [(m.channel, m.note, m.velocity) for m in (a, b)]
+
+        def via_multi():
+            multi.send(a)
+            a.velocity = cx.ite(a.velocity != 0, 0, 1)
+
+        def via_other():
+            other.send(b)
+            b.velocity = cx.ite(b.velocity != 0, 0, 1)
+        ths = [S.spawn(via_multi, 'via_multi'), S.spawn(via_other, 'via_other')]
+        try:
+            S.run()
+        except sc.Stuck as e:
+            cx.fail('every-call-returns', detail='%s; schedule=%s' % (e, S.trace[-40:]))
+            return
+        for t in ths:
+            if t.exc is not None:
+                cx.fail('no-call-raises:%s' % type(t.exc).__name__, detail='%r in %s' % (t.exc, t.name))
+                return
+        cx.reach('no-call-raises')
+        cx.reach('every-call-returns')
+        got = []
+        for _ in range(4):
+            y = wire.poll()
+            if y is None:
+                break
+            got.append(y)
+        cx.observe('n_received', len(got))
+        ok = len(got) == 2
+        cx.check(ok, 'shared-subport:exactly-once-intact')
+        if not ok:
+            return
+        for i, orig in enumerate((a, b)):
+            mine = [m for m in got if decide_chan(cx, m, i)]
+            cx.check(len(mine) == 1 and cx.And(mine[0].type == 'note_on', cx.eq(mine[0].note, snap[i][1]),
+                                               cx.eq(mine[0].velocity, snap[i][2])),
+                     'shared-subport:exactly-once-intact')
+            cx.check(all(m is not orig for m in mine), 'received-is-a-copy')
+
+
 @harness(labels=['no-call-raises', 'every-call-returns', 'queue-exactly-once-intact'])
 def parser_queue(cx, nput, max_preempt):
     """backends._parser_queue.ParserQueue: concurrent put_bytes of whole
@@ -274,7 +348,7 @@ BOUNDS = {
              'round-robin scheduler, a deviation being a preemption or a non-default pick at a blocking point) at source-LINE granularity (mido/ports.py, '
              '_parser_queue.py and the device double; calls into parser/tokenizer/message code are atomic) of programs with 1-2 senders x 1-2 messages and 1-2 receivers using '
              'receive / poll / iter_pending (plus two senders alone with one more preemption), on a lock-protected byte-wise device port, EchoPort, the IOPort wrapper over the '
-             'device port and a MultiPort over two EchoPorts; message contents (note, velocity) symbolic; the sender mutates its '
+             'device port and a MultiPort over two EchoPorts; a block-buffer device port (read, then mark consumed) under 5 programs; one device port written through a MultiPort and directly / through a second MultiPort at once (<=2 preemptions); message contents (note, velocity) symbolic; the sender mutates its '
              'message after send() returned; a forwarder thread that sends to a MultiPort from inside its iteration over a sub-port while another thread polls; ParserQueue with 2 concurrent put_bytes and a poller (here every line of parser.py and tokenizer.py is a yield point too)',
     'thorough': '<=2 preemptions for all programs on the device port, EchoPort and IOPort (MultiPort programs stay at 1: its '
                 'polling loop has several times more yield points); 3 senders; 2 messages per sender with 2 receivers',
@@ -322,6 +396,12 @@ def JOBS(tier):
                          {'cost': 500, 'use_trace': False}))
             jobs.append((concurrent, {'kind': kind, 'program': (2, 2, 2, 'receive'), 'max_preempt': 2,
                                       'free_choices': False}, {'cost': 500, 'use_trace': False}))
+    # the block-buffer device: _send and _receive must exclude each other
+    for prog in ((1, 1, 1, 'poll'), (1, 2, 1, 'poll'), (1, 1, 1, 'receive'), (2, 1, 1, 'iter_pending'), (1, 2, 1, 'receive')):
+        jobs.append((concurrent, {'kind': 'buffer', 'program': prog, 'max_preempt': p}, {'cost': 300, 'use_trace': False}))
+    jobs.append((concurrent, {'kind': 'buffer', 'program': (1, 1, 1, 'poll'), 'max_preempt': p + 1}, {'cost': 500, 'use_trace': False}))
+    for route in ('direct', 'second-multiport'):
+        jobs.append((shared_subport, {'max_preempt': p + 1, 'route': route}, {'cost': 300, 'use_trace': False}))
     jobs.append((relay, {'max_preempt': p}, {'cost': 300, 'use_trace': False}))
     jobs.append((parser_queue, {'nput': 2, 'max_preempt': p}, {'cost': 50, 'use_trace': False}))
     jobs.append((parser_queue, {'nput': 1, 'max_preempt': p}, {'use_trace': False}))
